@@ -308,7 +308,7 @@ def library_pool():
         ("re_energy2", lambda: Expr(gs("re").energy(2))),
         ("mp_amplitude_2_ph", lambda: Expr(gs().mp_amplitude(2, "ph", "ia"))),
         ("mp_amplitude_2_pphh",
-         lambda: Expr(gs().mp_amplitude(2, "pphh", "i3j2a1b"))),
+         lambda: Expr(gs().mp_amplitude(2, "pphh", "i2j1a1b"))),
         ("re_residual_2", lambda: Expr(gs("re").amplitude_residual(
             2, "pphh", "ijab"), real=True)),
         ("psi1", lambda: Expr(gs().psi(1, "ket"))),
@@ -335,7 +335,7 @@ def library_pool():
         ("t2_2_expanded", lambda: Intermediates().available["t2_2"]
          .expand_itmd("ijab", fully_expand=True)),
         ("t1_2_once", lambda: Intermediates().available["t1_2"]
-         .expand_itmd("i2a3", fully_expand=False)),
+         .expand_itmd("i2a1", fully_expand=False)),
         ("p0_2_oo", lambda: Intermediates().available["p0_2_oo"]
          .expand_itmd("ij")),
         ("t2eri_1", lambda: Intermediates().available["t2eri_1"]
@@ -412,12 +412,12 @@ def run_lib(case, r):
 
 
 LIB_TARGETS = {
-    "mp_amplitude_2_ph": ["i", "a"], "mp_amplitude_2_pphh": ["i3", "j2", "a1", "b"],
+    "mp_amplitude_2_ph": ["i", "a"], "mp_amplitude_2_pphh": ["i2", "j1", "a1", "b"],
     "re_residual_2": ["i", "j", "a", "b"], "precursor_1": ["i", "a"],
     "isr_1_pphh": ["i", "j", "a", "b"], "overlap_2": ["i", "a", "j", "b"],
     "m_ph_ph_1": ["i", "a", "j", "b"], "m_ip_2": ["i", "j"],
     "m_ph_pphh": ["i", "a", "j", "k", "b", "c"], "mvp_1": ["i", "a"],
-    "t2_2_expanded": ["i", "j", "a", "b"], "t1_2_once": ["i2", "a3"],
+    "t2_2_expanded": ["i", "j", "a", "b"], "t1_2_once": ["i2", "a1"],
     "p0_2_oo": ["i", "j"], "t2eri_1": ["i", "j", "k", "a"],
     "symbolic_denoms": ["i", "j", "a", "b"], "spatial_t2_1": ["i", "j", "a", "b"],
     "spatial_m_ph_ph_1": ["i", "a", "j", "b"],
